@@ -301,7 +301,6 @@ func (d *Doc) Expected() (*openfgav1.AuthorizationModel, map[string]*openfgav1.T
 	return m, ext
 }
 
-
 // Clone deep-copies a document.
 func (d *Doc) Clone() *Doc {
 	c := &Doc{Module: d.Module, Schema: d.Schema}
